@@ -97,7 +97,11 @@ def stuckOnTimer (s : State) : Prop :=
 theorem stuck_no_internal_move {s : State} (hs : stuckOnTimer s) (e : Ev) (he : e.internal = true) : step cfg s e = none := by
   obtain ⟨h1, h2, h3, h4, h5, h6, h7, h8, h9⟩ := hs
   cases e <;> simp [Ev.internal] at he <;> simp [step, h1, h2, h3, h4]
-  all_goals (try (intro hi; (have : ‹Nat› = 0 := by omega); subst this; simp_all [allB, Entry.finished]))
-  all_goals simp_all [allB, Entry.finished, List.range_succ]
+  case uRecv i k => intro hi _; subst hi; omega
+  case stop => simp [allB, Entry.finished, h5]
+  all_goals first
+    | omega
+    | (intro hi; subst hi; simp_all; done)
+    | (simp_all; done)
 
 end SSV.RelayLife
